@@ -13,7 +13,6 @@ code -> spec (KeysTrace.tla): the driver builds models by many histories (single
 """
 from __future__ import annotations
 
-import hashlib
 import itertools
 import json
 import os
